@@ -5,6 +5,7 @@ import (
 	"encoding/json"
 	"fmt"
 	"strings"
+	"time"
 
 	cedar "github.com/cedar-policy/cedar-go"
 	"github.com/cedar-policy/cedar-go/types"
@@ -233,8 +234,37 @@ func runSetOrder(payload []*Sx) *Sx {
 	return out
 }
 
+// ambientZones: what a value prints as, and what a text parses to, must not depend on the process's local time zone (time.Local is what
+// $TZ / /etc/localtime set in a real process); the harness is single-threaded per case, so it may swap the variable
+var ambientZones = []*time.Location{time.UTC, time.FixedZone("UTC+05:30", 5*3600+1800), time.FixedZone("UTC-08:00", -8*3600), time.FixedZone("UTC+14", 14*3600)}
+
+func underZones(f func() *Sx) (*Sx, bool) {
+	saved := time.Local
+	defer func() { time.Local = saved }()
+	var first *Sx
+	same := true
+	for i, z := range ambientZones {
+		time.Local = z
+		r := f()
+		if i == 0 {
+			first = r
+		} else if r.String() != first.String() {
+			same = false
+		}
+	}
+	return first, same
+}
+
 // scalar: (parse <type> <xstr>) | (print <value>)
 func runScalar(payload []*Sx) *Sx {
+	res, same := underZones(func() *Sx { return runScalarIn(payload) })
+	if !same {
+		return L(A("depends-on-the-local-time-zone"))
+	}
+	return res
+}
+
+func runScalarIn(payload []*Sx) *Sx {
 	op := payload[0]
 	switch op.Head() {
 	case "parse":
@@ -288,6 +318,14 @@ func runUIDParse(payload []*Sx) *Sx {
 
 // cedarvalue: <value> -> does the Cedar rendering of the value parse and evaluate to an equal value?
 func runCedarValue(payload []*Sx) *Sx {
+	res, same := underZones(func() *Sx { return runCedarValueIn(payload) })
+	if !same {
+		return L(A("rendering-depends-on-the-local-time-zone"))
+	}
+	return res
+}
+
+func runCedarValueIn(payload []*Sx) *Sx {
 	v := valueFromSx(payload[0])
 	text := v.MarshalCedar()
 	var p cedar.Policy
@@ -326,6 +364,14 @@ func runCedarValue(payload []*Sx) *Sx {
 
 // valuejson: <value> -> JSON round trip, stability, equality
 func runValueJSON(payload []*Sx) *Sx {
+	res, same := underZones(func() *Sx { return runValueJSONIn(payload) })
+	if !same {
+		return L(A("json-depends-on-the-local-time-zone"))
+	}
+	return res
+}
+
+func runValueJSONIn(payload []*Sx) *Sx {
 	v := valueFromSx(payload[0])
 	b1, err := json.Marshal(v)
 	if err != nil {
